@@ -10,6 +10,7 @@ import (
 	"verif/lib/ev"
 	"verif/lib/exact"
 	"verif/lib/mc"
+	"verif/lib/refgeom"
 )
 
 const G = 4 // 4x4 grid, coordinates 0..3; query lattice -0.5..3.5 step 0.5 (9x9)
@@ -77,6 +78,13 @@ func main() {
 				if got := planar.RingContains(v, pf); got != want {
 					c.Failf("ring", "RingContains(%v, %v) = %v, exact even-odd says inside=%v boundary=%v (variant %d of base ring %v)", v, pf, got, in, on, vi, ring)
 					return
+				}
+				if vi == 0 {
+					// the same ring with spare capacity behind it (a prefix of a longer slice)
+					if got := planar.RingContains(orb.Ring(refgeom.Spare(v)), pf); got != want {
+						c.Failf("layout-dependent", "RingContains(%v, %v) = %v when the ring has spare capacity, %v otherwise", v, pf, got, want)
+						return
+					}
 				}
 			}
 		}
@@ -168,6 +176,14 @@ func main() {
 			wantM := want || contains(otex, pe)
 			if got := planar.MultiPolygonContains(mp, pf); got != wantM {
 				c.Failf("multipolygon", "MultiPolygonContains(%v, %v) = %v, want %v", mp, pf, got, wantM)
+			}
+			// read-only and layout-independent: all rings as windows of one shared buffer
+			wmp, verify := refgeom.Windowed(mp)
+			wgot := planar.MultiPolygonContains(wmp.(orb.MultiPolygon), pf)
+			if d := verify(); d != "" {
+				c.Failf("contains-writes", "MultiPolygonContains wrote outside its argument: %s | %v", d, mp)
+			} else if wgot != wantM {
+				c.Failf("layout-dependent", "MultiPolygonContains(%v, %v) = %v when the rings share one buffer, want %v", mp, pf, wgot, wantM)
 			}
 		}
 		if nz > 0 {
